@@ -152,7 +152,7 @@ Definition peer_link_free (g : graph) (a b : str) : bool :=
    - what excludes exactly the signature of a recorded defect: a new name that
      does not clash in the scope of the renamed element (relabel_ok); remove_link not on a peering link;
    - the documented domain of add_link (distinct interfaces, no service port).
-   Every other call (false here) is covered by the wf_b evaluation on the implementation's snapshots only. *)
+   (The calls that are `false` here are dealt with in op_pre below.) *)
 Definition op_pre_basic (g : graph) (o : op) : bool :=
   match o with
   | OAddNode _ _ ntype => mem_str ntype enum_node_types
@@ -176,14 +176,26 @@ Definition op_pre_basic (g : graph) (o : op) : bool :=
    - disconnect_interface, unpeer, remove_child_interface: sub-interfaces hang off DedicatedPorts only (what
      add_child_interface enforces); disconnect_interface not on a service port;
    - peer: two different services (peer(a, a) would give two ports of one name) and a free link name;
-   - remove_node / remove_component / remove_facility / remove_switch / remove_network_service (both levels): rem_pre. *)
+   - remove_node / remove_component / remove_facility / remove_switch / remove_network_service (both levels): rem_pre;
+   - add_network_service with interfaces, add_port_mirror_service: conn_pre;
+   - add_facility, add_switch: none (a rejected later step takes the half-built node away again). *)
 (* the removals: the library skips interfaces an earlier disconnection took away (5286851), and the three structural
    side conditions above (they hold of every model the API builds, the rules do not state them) *)
 Definition rem_pre (fl : flags) (g : graph) : bool :=
   fl_skip_gone fl && subs_under_dedicated g && ns_cp_connects g && one_sp_peer g.
+(* add_network_service with interfaces / the port mirror service: one connect_interface per interface (none of them a
+   service port), any failure rolls the call back (16ce105) *)
+Definition conn_pre (fl : flags) (g : graph) (ifs : list str) : bool :=
+  match ifs with
+  | [] => true
+  | _ => fl_connect_names fl && fl_connect_undo fl && subs_under_dedicated g && forallb (fun i => negb (typ_is g i sServicePort)) ifs
+  end.
 Definition op_pre (fl : flags) (g : graph) (o : op) : bool :=
   match o with
   | ORemoveNode _ | ORemoveComponent _ _ | ORemoveFacility _ | ORemoveSwitch _ | ORemoveNS _ | ONodeRemoveNS _ _ => rem_pre fl g
+  | OAddNS _ _ nstype ifs => mem_str nstype enum_service_types && conn_pre fl g ifs
+  | OAddPM _ _ to => conn_pre fl g [to]
+  | OAddFacility _ _ _ | OAddSwitch _ _ _ => true
   | OConnect s i => fl_connect_names fl && fl_connect_undo fl && negb (typ_is g i sServicePort)
   | ODisconnect s i => subs_under_dedicated g && negb (typ_is g i sServicePort)
   | OPeer a b => negb (str_eqb a b) && peer_link_free g a b
